@@ -170,7 +170,8 @@ NAME_POOLS = [
     ["7", "11", "3", "5", "0", "2", "13", "1"],
     ["q1", "q10", "q", "s", "s2", "1", "11", "q11"],      # names that are substrings of each other
     ["a", "b", "a,b", "c", "b,c", "a,b,c", "d", "c,d"],   # names whose printed state sets collide
-    ["{a}", "{b,c}", "{a,b}", "{c}", "{a,b,c}", "{}", "{b}", "{a,c}"],   # names that are printed state sets themselves
+    ["{a}", "{b}", "{a,b}", "{c}", "{a,b,c}", "{}", "{b,c}", "{a,c}"],   # names that are printed state sets themselves
+    ["p", "q", "{p,q}", "{p}", "r", "{p,q,r}", "{{p}}", "{q}"],          # plain names next to the sets they would print as
 ]
 
 
@@ -230,8 +231,20 @@ def related_regexps(rng, syms):
     from gambatools import regexp as R
     import copy
 
+    def clone(x):
+        # rebuilt through the constructors (copy.deepcopy would depend on how the classes implement copying)
+        if isinstance(x, R.Iteration):
+            return R.Iteration(clone(x.operand))
+        if isinstance(x, R.Sum):
+            return R.Sum(clone(x.left), clone(x.right))
+        if isinstance(x, R.Concat):
+            return R.Concat(clone(x.left), clone(x.right))
+        if isinstance(x, R.Symbol):
+            return R.Symbol(x.symbol)
+        return type(x)()
+
     def mutate(x):
-        x = copy.deepcopy(x)
+        x = clone(x)
         nodes = []
 
         def walk(n):
@@ -250,7 +263,7 @@ def related_regexps(rng, syms):
         return x
 
     r = random_regexp(rng, rng.choice([0, 1, 1, 2, 2, 3]), syms, 0.05, 0.08)
-    r2 = mutate(r) if rng.random() < 0.7 else copy.deepcopy(r)
+    r2 = mutate(r) if rng.random() < 0.7 else clone(r)
     St, Su, Ca = R.Iteration, R.Sum, R.Concat
     return [Su(St(r), r2), Su(r2, St(r)), Ca(St(r), St(r2)), Su(r, r2), Ca(r, r2), St(Su(r, r2)), Su(St(r), St(r2)),
             Ca(St(r), r2), Ca(r2, St(r)), St(Ca(r, r2)), Su(Ca(r, r2), Ca(r2, r)), Su(Su(r, r2), r)]
